@@ -54,7 +54,7 @@ func (c *Ctx) NAME(rule string) []report.Obligation {
 			switch {
 			case loadedField(a) == "Name":
 				explicit = s
-			case isCallTo(c, a, "loader.NormalizeProjectName"):
+			case isCallTo(c, a, "loader.NormalizeProjectName") || c.returnsCallTo(a, "loader.NormalizeProjectName"):
 				dir = s
 			default:
 				env = s
@@ -756,3 +756,25 @@ func (c *Ctx) readsField(v ssa.Value, field string, depth int) bool {
 }
 
 var _ = report.Info
+
+// returnsCallTo: v is a call to a module helper every return of which yields a call to the function id.
+func (c *Ctx) returnsCallTo(v ssa.Value, id string) bool {
+	call, ok := v.(*ssa.Call)
+	if !ok {
+		return false
+	}
+	h := call.Call.StaticCallee()
+	if h == nil || !c.P.InModule(h) || h.Blocks == nil {
+		return false
+	}
+	rets := returnsOf(h)
+	if len(rets) == 0 {
+		return false
+	}
+	for _, r := range rets {
+		if len(r.Results) != 1 || !isCallTo(c, r.Results[0], id) {
+			return false
+		}
+	}
+	return true
+}
